@@ -14,6 +14,7 @@ import Mathlib.Tactic.Linarith
 import Mathlib.Tactic.Push
 
 set_option linter.unusedSectionVars false
+set_option linter.unusedSimpArgs false
 namespace DV.C17
 variable {K : Type} [Field K] [LinearOrder K] [IsStrictOrderedRing K]
 
@@ -39,8 +40,11 @@ def tol (s : Style) (a b e : K) : K :=
   | .relativeStrong => e * min |a| |b|
   | .absolute => e
 
+-- (the permutation lemmas make the proof independent of the order in which the source writes the operands of
+--  `max`/`min`, of the product and of the difference)
 theorem eqS_iff (s : Style) (a b e : K) : eqS s a b e = true ↔ |a - b| ≤ tol s a b e := by
-  cases s <;> simp [eqS, tol, Gen.eq_relativeWeak, Gen.eq_relativeStrong, Gen.eq_absolute, absK_eq_abs, maxK_eq_max, minK_eq_min]
+  cases s <;> simp [eqS, tol, Gen.eq_relativeWeak, Gen.eq_relativeStrong, Gen.eq_absolute, absK_eq_abs, maxK_eq_max, minK_eq_min,
+    max_comm, min_comm, abs_sub_comm, mul_comm]
 
 theorem tol_comm (s : Style) (a b e : K) : tol s a b e = tol s b a e := by
   cases s <;> simp [tol, max_comm, min_comm]
@@ -177,14 +181,15 @@ theorem strict_bracket (s : Style) {tr : K → Int} (htr : IsTrunc tr) (x e : K)
   · simp only [hg, if_false] at heq
     rw [heq, eqS_refl s x e h0] at hne; exact Bool.noConfusion hne
 
+-- (`and_comm` / `or_comm`: independent of the order of the two operands of `&&` / `||` in the source)
 theorem leS_iff (s : Style) (p q e : K) : leS s p q e = true ↔ (p < q ∨ eqS s p q e = true) := by
-  simp [leS, Gen.le]
+  simp [leS, Gen.le, or_comm]
 
 theorem ltS_iff (s : Style) (p q e : K) : ltS s p q e = true ↔ (p < q ∧ eqS s p q e = false) := by
-  simp [ltS, Gen.lt, Gen.ne]
+  simp [ltS, Gen.lt, Gen.ne, and_comm]
 
 theorem gtS_iff (s : Style) (p q e : K) : gtS s p q e = true ↔ (q < p ∧ eqS s p q e = false) := by
-  simp [gtS, Gen.gt, Gen.ne]
+  simp [gtS, Gen.gt, Gen.ne, and_comm]
 
 /-- tolerant equality of the two distances to the neighbouring integers bounds their difference by epsilon -/
 theorem dist_eq_bound (s : Style) (x e : K) (l : Int) (h0 : 0 ≤ e) (hl : (l : K) < x) (hu : x < (l : K) + 1)
